@@ -286,6 +286,27 @@ def run(ctx) -> RuleResult:
 def _alternatives(expr, step):
     """An element of a literal dict/tuple/list denotes one of its members (those not known to be None)."""
     base = expr
+    # an attribute / index of an arbitrary element of a literal list of records:  Σelem([_Rec(a, p), _Rec(b, q)]).poly
+    chain = []
+    inner = expr
+    while isinstance(inner, (ast.Attribute, ast.Subscript)) and not (isinstance(inner, ast.Subscript) and is_S(inner.value) is False and False):
+        chain.append(inner)
+        inner = inner.value
+    if chain and is_S(inner, "elem") and inner.args and isinstance(inner.args[0], (ast.List, ast.Tuple)) and inner.args[0].elts \
+            and not any(isinstance(e, ast.Starred) for e in inner.args[0].elts):
+        from ..paths import _project_record
+
+        out = []
+        for member in inner.args[0].elts:
+            node = member
+            for link in reversed(chain):
+                if isinstance(link, ast.Attribute):
+                    node = ast.Attribute(value=node, attr=link.attr, ctx=ast.Load())
+                else:
+                    node = ast.Subscript(value=node, slice=link.slice, ctx=ast.Load())
+                node = _project_record(node)
+            out.append(node)
+        return out
     if is_S(base) and base.func.id[1:] in ("value", "elem", "key") and base.args:
         # the container is known to be empty (falsy) on this path: it has no elements at all
         want = U(strip_tags(base.args[0]))
